@@ -3,6 +3,7 @@ import QipVerif.Lemmas.SimWrites
 import QipVerif.Lemmas.SimDm
 import QipVerif.Lemmas.SimIdeal
 import QipVerif.Lemmas.SimIdealEmbed
+import QipVerif.Model.SimEdit
 /-!
 # C02 — measurement branches obey the Born rule and drive classical control
 
@@ -177,6 +178,31 @@ theorem stat_eq_branches {Q P : Type} [One P] [Mul P] (B : Backend Q P) (cfg : C
       (new.filterMap (·.2.2)).Nodup := by
   obtain ⟨w', new, extra, h1, h2, h3, h4, h5, _, _⟩ := runStatistics_fresh B cfg c hc st cb hf w hcb
   exact ⟨w', new, extra, h1, h2, h3, h4, h5⟩
+
+/-- **stat_eq_branches_current.** The simulator reads the gate objects of its circuit when it EXECUTES them (contract
+of `Model/SimEdit.lean`: `step` takes the operation's fields — targets, controls, `classical_controls`,
+`classical_control_value` — as they are at that time; nothing is precomputed at construction of the gate or of the
+simulator).  Hence after ANY history of calls interleaved with in-place edits of the circuit (a condition assigned or
+re-assigned on a gate object after `add_gate`, a gate replaced, …), `run_statistics` returns the branches of the circuit
+AS IT IS NOW: the conclusion of `stat_eq_branches` for the current circuit `ch`, whatever the simulator did before and
+whatever the gates' fields were earlier. -/
+theorem stat_eq_branches_current {Q P : Type} [One P] [Mul P] (B : Backend Q P) (cfg : Cfg) (phases : List Int)
+    (w0 : World Q P) (c0 : Circuit) (evs : List (HEv Q)) (st : Q) (cb : Option Ref) (hf : Fresh cfg cb)
+    (hc : (execHEvs B cfg .sv phases (w0, c0) evs).2.Valid)
+    (hcb : CbOk (execHEvs B cfg .sv phases (w0, c0) evs).1 cb) :
+    let wh := (execHEvs B cfg .sv phases (w0, c0) evs).1
+    let ch := (execHEvs B cfg .sv phases (w0, c0) evs).2
+    ∃ (w' : World Q P) (new : List (Option Q × P × Option Ref)) (extra : List (List Int)),
+      runStatistics B cfg .sv ch wh st cb =
+        (w', .ok { states := (new.filter (fun x => x.1.isSome)).map (·.1),
+                   probs := (new.filter (fun x => x.1.isSome)).map (·.2.1),
+                   cbits := some ((new.filter (fun x => x.1.isSome)).map (·.2.2)) }) ∧
+      w'.heap.cells = wh.heap.cells ++ extra ∧
+      new.map (derefEntry w'.heap) =
+        (records ch.numMeas).map (branchEntry B ch (initBits ch (cb.map wh.heap.get)) st) :=
+  let ⟨w', new, extra, h1, h2, h3, _, _⟩ :=
+    stat_eq_branches B cfg (execHEvs B cfg .sv phases (w0, c0) evs).2 hc (execHEvs B cfg .sv phases (w0, c0) evs).1 st cb hf hcb
+  ⟨w', new, extra, h1, h2, h3⟩
 
 /-- **cbits_reported.** The bits of a surviving record are the record's writes applied in program order to the
 initial bits: every measurement with a `classical_store` overwrites that bit with its outcome, so the last write
